@@ -2,6 +2,8 @@ CONSTANTS
   R = 3
   C = 3
   ORD = "all"
+  SAMPLE = 1
+  PSTEP = 1
 INIT Init
 NEXT Next
 INVARIANTS TupleInv ZeroCopyInv BuilderInv OrderInv ReorderInv ScaledInv
